@@ -231,8 +231,23 @@ Fixpoint vstr (so sc t1 t2 : N) (skip : bool) (x : str) : str :=
       else if skip then vstr so sc t1 t2 skip r
       else c :: vstr so sc t1 t2 skip r
   end.
-Definition astr (x : str) : str := vstr DEL_O DEL_C INS_O INS_C false x.   (* accepted *)
-Definition rstr (x : str) : str := vstr INS_O INS_C DEL_O DEL_C false x.   (* rejected *)
+Definition rstr (x : str) : str := vstr INS_O INS_C DEL_O DEL_C false x.   (* rejected (no diff:replace wrappers) *)
+
+(* accepted: the groups opened by the delete placeholder are skipped; every other placeholder (any code
+   point of the placeholder range: the insert pair, and the diff:replace openers and closer, which the
+   maker allocates as it goes) is transparent *)
+Definition is_pua (c : N) : bool := N.ltb 57344 c && N.leb c 63743.
+Fixpoint astr_go (skip : bool) (x : str) : str :=
+  match x with
+  | [] => []
+  | c :: r =>
+      if N.eqb c DEL_O then astr_go true r
+      else if N.eqb c DEL_C then astr_go false r
+      else if is_pua c then astr_go skip r
+      else if skip then astr_go skip r
+      else c :: astr_go skip r
+  end.
+Definition astr (x : str) : str := astr_go false x.
 
 Definition alive_r (t : xtree) : bool := negb (is_inserted t).
 
